@@ -246,6 +246,33 @@ func setOverflow(c *Case) {
 	}
 }
 
+// setConditioning: the variance of values that are large compared with their spread
+// (stdvar(timestamp(m)): values around 1.7e9, variance 0.03) is ill-conditioned - the relative
+// error of the running-mean recurrence both engines use is about eps * |mean| / stddev per
+// operation, and the two engines feed the samples in different orders. varCondM is the magnitude
+// of the inputs for such queries (0: rule off).
+func setConditioning(c *Case) {
+	varCondM = 0
+	q := c.Query
+	if !strings.Contains(q, "stddev") && !strings.Contains(q, "stdvar") {
+		return
+	}
+	m := 0.0
+	for _, sd := range c.Data() {
+		for _, smp := range sd.Samples {
+			if v := math.Abs(smp.V); !math.IsInf(v, 0) && !math.IsNaN(v) && v > m {
+				m = v
+			}
+		}
+	}
+	if strings.Contains(q, "timestamp") || strings.Contains(q, "time()") {
+		m = math.Max(m, math.Abs(float64(c.End))/1000)
+	}
+	varCondM = m
+}
+
+var varCondM float64
+
 func extremeValue(x float64) bool {
 	return math.IsNaN(x) || math.IsInf(x, 0) || math.Abs(x) >= 1e300
 }
@@ -265,6 +292,14 @@ func floatEqS(a, b, scale float64) bool {
 	}
 	d := math.Abs(a - b)
 	m := math.Max(math.Abs(a), math.Abs(b))
+	if varCondM > 0 && m > 0 {
+		// whether the compared value is a variance or a standard deviation is not known here: take
+		// the smaller estimate of the spread (the looser bound)
+		spread := math.Min(m, math.Sqrt(m))
+		if d <= 256*2.3e-16*varCondM/spread*m {
+			return true
+		}
+	}
 	return d <= relTol*m || d < 1e-300 || d <= absScale*scale
 }
 
@@ -366,7 +401,11 @@ func sortSeries(ss []RSeries) {
 	key := func(s RSeries) string {
 		var sb strings.Builder
 		for _, p := range s.Pts {
-			fmt.Fprintf(&sb, "%d:%016x,", p.T, math.Float64bits(float64(p.V)))
+			bits := math.Float64bits(float64(p.V))
+			if math.IsNaN(float64(p.V)) {
+				bits = 0x7ff8000000000000 // one key for every NaN, whatever its sign and payload
+			}
+			fmt.Fprintf(&sb, "%d:%016x,", p.T, bits)
 		}
 		return sb.String()
 	}
